@@ -539,7 +539,7 @@ def sym_method(ctx, obj, name):
             if isinstance(c, (bytes, bytearray)):
                 obj.content = bytes(reversed(c))
                 return
-            raise Unsupported('reverse of symbolic bytearray (use a contract-level model)')
+            obj.content = seq_reverse(ctx, c)
         table = dict(append=append, extend=extend, reverse=reverse)
         if name in table:
             return _M(table[name], name)
@@ -609,7 +609,7 @@ def sym_method(ctx, obj, name):
         raise Unsupported('str.%s on symbolic value' % name)
     if isinstance(obj, SInt):
         if name == 'bit_length':
-            raise Unsupported('int.bit_length on symbolic value')
+            return _M(lambda: bit_length(ctx, obj), 'bit_length')
         if name == 'real':
             return obj
     if isinstance(obj, SSeq):
@@ -618,6 +618,69 @@ def sym_method(ctx, obj, name):
         if name == 'index':
             return _M(index)
     raise Unsupported('attribute %s on %s' % (name, type(obj).__name__))
+
+
+_REV = z3.Function('seq_rev', sym.ByteSeq, sym.ByteSeq)
+
+
+def _flatten_units(t):
+    """If the sequence term is a concatenation of unit/empty terms return the element terms, else None."""
+    t = z3.simplify(t)
+    out = []
+
+    def walk(e):
+        k = e.decl().kind()
+        if k == z3.Z3_OP_SEQ_EMPTY:
+            return True
+        if k == z3.Z3_OP_SEQ_UNIT:
+            out.append(e.arg(0))
+            return True
+        if k == z3.Z3_OP_SEQ_CONCAT:
+            return all(walk(c) for c in e.children())
+        return False
+    return out if walk(t) else None
+
+
+def seq_reverse(ctx, b):
+    """Reversal of a byte sequence: exact when its length is fixed on this path, otherwise an uninterpreted
+    function with the ground facts len(rev x) == len x, rev(rev x) == x, first/last exchange."""
+    t = lift(b).t
+    elems = sym.flatten_units(t)
+    if elems is None:
+        elems = sym.flatten_units(z3.simplify(t))
+    if elems is not None:
+        if not elems:
+            return SBytes(z3.Empty(sym.ByteSeq))
+        units = [z3.Unit(e) for e in reversed(elems)]
+        return SBytes(units[0] if len(units) == 1 else z3.Concat(*units))
+    r = _REV(t)
+    n = z3.Length(t)
+    ctx.assume(z3.And(z3.Length(r) == n, _REV(r) == t,
+                      z3.Implies(n > 0, z3.And(r[0] == t[n - 1], r[n - 1] == t[0]))), silent=True)
+    return SBytes(r)
+
+
+_BL = z3.Function('bit_length', z3.IntSort(), z3.IntSort())
+
+
+def bit_length(ctx, v):
+    """int.bit_length (of |v|): uninterpreted with threshold facts  |v| < 2^k <=> bl <= k  for k = 0..72 and the
+    general characterisation through pow2 above that."""
+    c = sym.concrete_int(v)
+    if c is not None:
+        return c.bit_length()
+    vt = as_int_term(v)
+    a = z3.If(vt >= 0, vt, -vt)
+    b = _BL(a)
+    facts = [b >= 0, (a == 0) == (b == 0)]
+    for k in range(0, 73):
+        facts.append((a < (1 << k)) == (b <= k))
+    ctx.assume(z3.And(*facts), silent=True)
+    if not sym.proves(ctx, a < (1 << 72)):
+        p = _POW2(b)
+        pm = _POW2(b - 1)
+        ctx.assume(z3.Implies(a > 0, z3.And(pm <= a, a < p, p == 2 * pm, pm >= 1)), silent=True)
+    return SInt(b)
 
 
 def str_replace_all(s, a, b):
@@ -764,7 +827,18 @@ def struct_pack(ctx, fmt, values):
                 raise Unsupported("struct 's' with length different from count")
             continue
         if code in 'fd':
-            raise Unsupported('struct float pack of symbolic value')
+            pk, un, w = _float_funcs(code)
+            if not isinstance(v, (SReal, SInt, float, int)):
+                py_raise(struct.error('required argument is not a float'))
+            xt = sym.to_real(v)
+            bs = pk(xt)
+            rt = un(bs)
+            if code == 'd':
+                ctx.assume(z3.And(z3.Length(bs) == 8, rt == xt), silent=True)
+            else:
+                ctx.assume(z3.And(z3.Length(bs) == 4, un(pk(rt)) == rt), silent=True)
+            out = out + SBytes(bs)
+            continue
         width, signed = _FMT_WIDTH[code]
         if not isinstance(v, (SInt, SBool, int)):
             py_raise(struct.error('required argument is not an integer'))
@@ -786,7 +860,7 @@ def _zeros_sym(cnt, ln):
 def _reverse_units(xt, width, signed):
     if signed:
         xt = z3.If(xt < 0, xt + z3.IntVal(1 << (8 * width)), xt)
-    units = [z3.Unit((xt / z3.IntVal(1 << (8 * k))) % 256) for k in range(width)]
+    units = [z3.Unit(sym._div_const(xt, 1 << (8 * k)) % 256) for k in range(width)]
     return units[0] if width == 1 else z3.Concat(*units)
 
 
@@ -820,7 +894,11 @@ def struct_unpack(ctx, fmt, data, offset, exact):
             pos = pos + cnt
             continue
         if code in 'fd':
-            raise Unsupported('struct float unpack of symbolic bytes')
+            pk, un, w = _float_funcs(code)
+            piece = z3.SubSeq(d.t, pos, w)
+            res.append(SReal(un(piece)))
+            pos = pos + w
+            continue
         width, signed = _FMT_WIDTH[code]
         ctx.assume(sym.byte_range_facts(d.t, pos, width), silent=True)
         if big:
@@ -857,6 +935,113 @@ def _m_struct_unpack_from(ctx, fmt, data, offset=0):
 def _values(ctx, it):
     from .interp import Interp, Frame
     return list(Interp(ctx, Frame({})).iter_values(it))
+
+
+@register(int.bit_length)
+def _m_int_bit_length(ctx, x):
+    return bit_length(ctx, x)
+
+
+class MBytesIO(object):
+    """io.BytesIO (E-BYTESIO): content + position; write at the position (overwriting/extending), read from it."""
+
+    def __init__(self, content=b'', pos=0):
+        self.content = content
+        self.pos = pos
+
+    def _c(self):
+        return lift(self.content)
+
+
+def _bio_method(ctx, bio, name):
+    from .interp import MBytes, py_raise, deep_concrete
+
+    def plen():
+        return bio._c().length() if is_sym(bio.content) else len(bio.content)
+
+    def write(data):
+        if isinstance(data, MBytes):
+            data = data.get()
+        if not isinstance(data, (SBytes, bytes, bytearray)):
+            py_raise(TypeError('a bytes-like object is required'))
+        dlen = lift(data).length() if is_sym(data) else len(data)
+        n = plen()
+        at_end = (bio.pos == n)
+        if at_end is True or (is_sym(at_end) and sym.proves(ctx, at_end)):
+            if is_sym(bio.content) or is_sym(data):
+                bio.content = bio._c() + data
+            else:
+                bio.content = bytes(bio.content) + bytes(data)
+            bio.pos = bio.pos + dlen
+            return dlen
+        # general case: overwrite in the middle (Python clamps nothing: pads with zeros past the end - not modelled)
+        if is_sym(at_end) and not sym.proves(ctx, bio.pos <= n):
+            raise Unsupported('BytesIO.write beyond the end')
+        c = bio._c()
+        d = lift(data)
+        end = bio.pos + dlen
+        tail_start = sym.int_max(end, 0)
+        bio.content = c[:bio.pos] + d + c[tail_start:]
+        bio.pos = end
+        return dlen
+
+    def getvalue():
+        return bio.content
+
+    def getbuffer():
+        return bio.content
+
+    def tell():
+        return bio.pos
+
+    def seek(off, whence=0):
+        w = sym.concrete_int(whence)
+        if w == 0:
+            bio.pos = off
+        elif w == 1:
+            bio.pos = bio.pos + off
+        elif w == 2:
+            bio.pos = plen() + off
+        else:
+            raise Unsupported('seek whence')
+        return bio.pos
+
+    def read(n=-1):
+        c = bio._c() if (is_sym(bio.content) or is_sym(bio.pos) or is_sym(n)) else bio.content
+        if n is None or (sym.concrete_int(n) is not None and sym.concrete_int(n) < 0):
+            r = c[bio.pos:]
+            bio.pos = sym.int_max(plen(), bio.pos) if (is_sym(bio.pos) or is_sym(plen())) else max(plen(), bio.pos)
+            return r
+        if is_sym(n) and not sym.proves(ctx, n >= 0):
+            raise Unsupported('read(n) with possibly negative symbolic n')
+        r = c[bio.pos:bio.pos + n]
+        rl = r.length() if is_sym(r) else len(r)
+        bio.pos = bio.pos + rl
+        return r
+
+    def truncate(size=None):
+        size = bio.pos if size is None else size
+        bio.content = (bio._c() if is_sym(bio.content) or is_sym(size) else bio.content)[:size]
+        return size
+
+    def close():
+        return None
+    table = dict(write=write, getvalue=getvalue, tell=tell, seek=seek, read=read, truncate=truncate, close=close,
+                 getbuffer=getbuffer)
+    if name not in table:
+        raise Unsupported('BytesIO.%s' % name)
+    return _M(table[name], name)
+
+
+import io as _io
+
+
+@register(_io.BytesIO)
+def _m_bytesio(ctx, initial=b''):
+    from .interp import MBytes
+    if isinstance(initial, MBytes):
+        initial = initial.get()
+    return MBytesIO(initial, 0)
 
 
 @register(builtins.len)
